@@ -74,6 +74,11 @@ package authf
 //@   site if#2 assert [C03] buf.buf.bytes == e1
 //@   site if#4 assert [C03] buf.buf.bytes == e2
 //@   site if#6 assert [C03] buf.buf.bytes == e3
+//@   site ).Write#0 assert [C03] $2 == 1
+//@   site ).Write#1 assert [C03] $2 == 2
+//@   site ).Write#2 assert [C03] $2 == 3
+//@   site ).Write#3 assert [C03] $2 == 4
+//@   sites ).Write = 4
 //@   safety [C03]
 //
 //@ func (*BasicAuthInfo).WriteBlock
@@ -160,6 +165,12 @@ package authf
 //@   perreturn
 //@   modifies buf.buf.bytes
 //@   ensures [C03] err == nil && buf.buf.bytes == pre
+//@   site ).Write#0 assert [C03] $2 == 1
+//@   site ).Write#1 assert [C03] $2 == 2
+//@   site ).Write#2 assert [C03] $2 == 3
+//@   site ).Write#3 assert [C03] $2 == 4
+//@   site ).Write#4 assert [C03] $2 == 5
+//@   sites ).Write = 5
 //@   safety [C03]
 //
 //@ func (*BasicAuthPackage).WriteBlock
@@ -234,6 +245,10 @@ package authf
 //@   perreturn
 //@   modifies buf.buf.bytes
 //@   ensures [C03] err == nil && buf.buf.bytes == pre
+//@   site ).Write#0 assert [C03] $2 == 1
+//@   site ).Write#1 assert [C03] $2 == 2
+//@   site ).Write#2 assert [C03] $2 == 3
+//@   sites ).Write = 3
 //@   safety [C03]
 //
 //@ func (*TokenKey).WriteBlock
@@ -284,6 +299,9 @@ package authf
 //@   perreturn
 //@   modifies buf.buf.bytes
 //@   ensures [C03] err == nil && buf.buf.bytes == pre
+//@   site ).Write#0 assert [C03] $2 == 1
+//@   site ).Write#1 assert [C03] $2 == 2
+//@   sites ).Write = 2
 //@   safety [C03]
 //
 //@ func (*AuthRequest).WriteBlock
@@ -325,6 +343,15 @@ package authf
 //@   ensures [C05] validR(readBuf)
 //@   safety [C05]
 //
+//@ func (*TokenRequest).WriteTo
+//@   argsonly
+//@   noframe
+//@   allocates
+//@   site ).Write#0 assert [C03] $1 == 9 && $2 == 1
+//@   site ).Write#1 assert [C03] $2 == 0
+//@   site ).Write#2 assert [C03] $2 == 0
+//@   sites ).Write = 3
+//
 //@ func (*TokenResponse).ResetDefault
 //@   requires st != nil
 //@   pure
@@ -361,6 +388,17 @@ package authf
 //@   ensures [C05] validR(readBuf)
 //@   safety [C05]
 //
+//@ func (*TokenResponse).WriteTo
+//@   argsonly
+//@   noframe
+//@   allocates
+//@   site ).Write#0 assert [C03] $2 == 1
+//@   site ).Write#1 assert [C03] $1 == 8 && $2 == 2
+//@   site ).Write#2 assert [C03] $2 == 0
+//@   site ).Write#3 assert [C03] $2 == 0
+//@   site ).Write#4 assert [C03] $2 == 1
+//@   sites ).Write = 5
+//
 //@ func (*ApplyTokenRequest).ResetDefault
 //@   requires st != nil
 //@   pure
@@ -395,6 +433,8 @@ package authf
 //@   perreturn
 //@   modifies buf.buf.bytes
 //@   ensures [C03] err == nil && buf.buf.bytes == pre
+//@   site ).Write#0 assert [C03] $2 == 1
+//@   sites ).Write = 1
 //@   safety [C03]
 //
 //@ func (*ApplyTokenRequest).WriteBlock
@@ -443,6 +483,9 @@ package authf
 //@   perreturn
 //@   modifies buf.buf.bytes
 //@   ensures [C03] err == nil && buf.buf.bytes == pre
+//@   site ).Write#0 assert [C03] $2 == 1
+//@   site ).Write#1 assert [C03] $2 == 2
+//@   sites ).Write = 2
 //@   safety [C03]
 //
 //@ func (*ApplyTokenResponse).WriteBlock
@@ -491,6 +534,8 @@ package authf
 //@   perreturn
 //@   modifies buf.buf.bytes
 //@   ensures [C03] err == nil && buf.buf.bytes == pre
+//@   site ).Write#0 assert [C03] $2 == 1
+//@   sites ).Write = 1
 //@   safety [C03]
 //
 //@ func (*DeleteTokenRequest).WriteBlock
